@@ -162,6 +162,45 @@ mut("c18-round-not-truncate", "C18", "src/util/fmt.rs", "let mut str = val.to_st
 mut("c18-binary-for-decimal", "C18", "src/util/fmt.rs", "&STARTS[bytes_format as usize]", "&STARTS[1 - bytes_format as usize]")
 mut("c18-zero-count-inf", "C18", "src/util/fmt.rs", "if count == 0 { 0. }", "if count == 0 && picos != 0. { 0. }")
 
+# ---- C03
+mut("c03-rem-samples-per-round", "C03", B, """                if let Some(rem_samples) = &mut rem_samples {
+                    *rem_samples = rem_samples.saturating_sub(1);
+                }
+            }
+""", """            }
+            if let Some(rem_samples) = &mut rem_samples {
+                *rem_samples = rem_samples.saturating_sub(1);
+            }
+""")
+mut("c03-early-return-only-count", "C03", B, "if max_picos == 0 || !self.options.has_samples() {", "if max_picos == 0 || self.options.sample_count == Some(0) {")
+mut("c03-iter-count-from-option", "C03", "src/stats/sample.rs", "self.sample_size as u64 * self.time_samples.len() as u64", "self.sample_size as u64 * (self.time_samples.len() as u64).min(100)")
+mut("c03-test-mode-sample-size", "C03", B, "Self::Test => 1,", "Self::Test => 2,")
+# ---- C04
+mut("c04-max-strict", "C04", B, "if elapsed_picos >= max_picos {", "if elapsed_picos > max_picos {")
+mut("c04-min-max-priority", "C04", B, """            if elapsed_picos >= max_picos {
+                // Depleted the benchmarking time budget. This is a strict
+                // condition regardless of sample count and minimum time.
+                false
+            } else if rem_samples.unwrap_or(1) > 0 {""", """            if elapsed_picos >= max_picos && elapsed_picos >= min_picos {
+                // Depleted the benchmarking time budget. This is a strict
+                // condition regardless of sample count and minimum time.
+                false
+            } else if rem_samples.unwrap_or(1) > 0 {""")
+mut("c04-no-1ns-floor", "C04", B, "let progress_picos = slowest_time.picos.max(1_000);", "let progress_picos = slowest_time.picos.max(1);")
+mut("c04-skip-uses-fastest", "C04", B, "let progress_picos = slowest_time.picos.max(1_000);", "let progress_picos = raw_samples.iter().map(|s| s.duration().picos).min().unwrap().max(1_000);")
+# ---- C19
+mut("c19-threshold-lt-100", "C19", B, "if precision_multiple <= 100 {", "if precision_multiple < 100 {")
+mut("c19-samples-not-cleared", "C19", B, """                self.samples.clear();
+                self.counters.clear_input_counts();
+""", """                self.counters.clear_input_counts();
+""")
+mut("c19-counts-not-cleared", "C19", B, """                self.samples.clear();
+                self.counters.clear_input_counts();
+""", """                self.samples.clear();
+""")
+mut("c19-double-after-freeze", "C19", B, "current_mode = BenchMode::Collect { sample_size };", "current_mode = BenchMode::Collect { sample_size: if sample_size == 64 { 128 } else { sample_size } };")
+mut("c19-fastest-thread", "C19", B, "raw_samples.iter().max_by_key(|s| s.duration()).unwrap();", "raw_samples.iter().min_by_key(|s| s.duration()).unwrap();")
+
 def sh(cmd, **kw):
     return subprocess.run(cmd, shell=True, capture_output=True, text=True, **kw)
 
